@@ -40,24 +40,24 @@ Definition np_floor_divide (a b : float) : float := fst (np_divmod a b).
 
 Definition cyc (p : ph) : float := p_int p + p_frac p.
 
-(* (fd, remainder) ; None = some step did not give a Phase *)
-Definition op_divmod (p : ph) (d : float) : option (float * ph) :=
-  let fd := np_floor_divide (cyc p) d in
+(* remainder for a given quotient: self - from_angles(divisor, factor=fd) ; None = some step did not give a Phase *)
+Definition rem_of (p : ph) (d fd : float) : option ph :=
   match from_angles (NReal d) None (Some (NReal fd)) None with
   | None => None
-  | Some corr =>
-    match op_addsub true (OPh p) (OPh corr) with
-    | RPh rem =>
-      let fdx := np_floor_divide (cyc rem) d in
-      if negb (fdx =? 0) then
-        let fd2 := fd + fdx in
-        match from_angles (NReal d) None (Some (NReal fd2)) None with
-        | None => None
-        | Some corr2 => match op_addsub true (OPh p) (OPh corr2) with RPh rem2 => Some (fd2, rem2) | _ => None end
-        end
-      else Some (fd, rem)
-    | _ => None
-    end
+  | Some corr => match op_addsub true (OPh p) (OPh corr) with RPh rem => Some rem | _ => None end
+  end.
+
+(* (fd, remainder): first guess from the single-double cycle, remainder, second guess from the remainder's cycle, remainder again *)
+Definition op_divmod (p : ph) (d : float) : option (float * ph) :=
+  let fd := np_floor_divide (cyc p) d in
+  match rem_of p d fd with
+  | None => None
+  | Some rem =>
+    let fdx := np_floor_divide (cyc rem) d in
+    if negb (fdx =? 0) then
+      let fd2 := fd + fdx in
+      match rem_of p d fd2 with None => None | Some rem2 => Some (fd2, rem2) end
+    else Some (fd, rem)
   end.
 
 (* comparison with the implementation: 0 agree; 1 quotient differs; 2 remainder differs; 4 one side failed *)
